@@ -37,6 +37,7 @@ func init() {
 			"states = distinct (stream, entry, reader offset, empty-read run) environment states; transitions = Read answers; traces = complete schedules executed on the implementation",
 		Assumptions: []string{"streams avoid component-accumulating fields so that K3 (package-level accumulators) cannot interfere; that is C08/C18's subject"},
 		Run:         runC10,
+		Sub:         func(args []string) { tzSub(args) },
 		Replay:      replayC10,
 		QuickBudget: 200,
 	})
@@ -92,6 +93,7 @@ func c10Expect(entry string, frame []byte) (int, int) {
 }
 
 func runC10(w *vx.W) {
+	envProbeFamily(w, "C10")
 	c10MixChains(w)
 	c10ReaderKindsFamily(w)
 	c10FileIdShapes(w)
